@@ -77,6 +77,162 @@ def ob_pointload(canary=False):
 
 # ---------------------------------------------------------------- exhaustive: exclusive element selection
 
+def ob_load_simtypes(sim, et):
+    """every simulation type that accepts distributed loads: volume load (whole mesh) and surface load (the face x = L) with a constant and a linear density, thickness 0.25 in 2-D:
+    resultant == integral of the density (x thickness) and first moments about the origin, for the first unknown of the simulation."""
+    from EasyFEA import Models, Simulations
+    from EasyFEA.FEM import Field, BiLinearForm
+    mesh = _mesh(et)
+    dim = mesh.dim
+    th = 0.25 if dim == 2 else 1.0
+
+    def build():
+        if sim == "Thermal":
+            return Simulations.Thermal(mesh, Models.Thermal(k=1.0, c=1.0, thickness=th) if dim == 2 else Models.Thermal(k=1.0, c=1.0)), "t"
+        if sim == "WeakForms":
+            return Simulations.WeakForms(mesh, Models.WeakForms(Field(mesh.groupElem, 1), BiLinearForm(lambda u, v: u.grad.dot(v.grad)), thickness=th)), "u"
+        if sim == "WeakForms.vector":
+            return Simulations.WeakForms(mesh, Models.WeakForms(Field(mesh.groupElem, dim), BiLinearForm(lambda u, v: u.grad.ddot(v.grad)), thickness=th)), "x"
+        if sim == "HyperElastic":
+            return Simulations.HyperElastic(mesh, Models.HyperElastic.NeoHookean(dim, K=10.0, thickness=th) if dim == 2 else Models.HyperElastic.NeoHookean(dim, K=10.0), verbosity=False), "x"
+        if sim == "PhaseField":
+            mat = Models.Elastic.Isotropic(dim, planeStress=False, thickness=th) if dim == 2 else Models.Elastic.Isotropic(dim)
+            return Simulations.PhaseField(mesh, Models.PhaseField(mat, Models.PhaseField.SplitType.Bourdin, Models.PhaseField.ReguType.AT2, Gc=1.0, l0=0.3)), "x"
+        if sim == "InElastic":
+            IE = Models.InElastic
+            return Simulations.InElastic(mesh, IE.Behavior(dim, Models.Elastic.Isotropic(3, E=3.0, v=0.25), yieldSurface=IE.Yield.VonMises(1.0), thickness=th) if dim == 2 else
+                                         IE.Behavior(dim, Models.Elastic.Isotropic(3, E=3.0, v=0.25), yieldSurface=IE.Yield.VonMises(1.0))), "x"
+        raise Unsupported(sim)
+    co = np.asarray(mesh.coord)
+    n = 0
+    dens = {"const": (lambda x, y, z: 2.0 + 0 * x), "linear": (lambda x, y, z: 1.0 + 2.0 * x + 3.0 * y)}
+    import sympy as sp
+    X_, Y_, Z_ = sp.symbols("x y z")
+    for dname, f in dens.items():
+        fs = sp.Integer(2) if dname == "const" else 1 + 2 * X_ + 3 * Y_
+        for kind in ("volume", "surf"):
+            try:
+                simu, unk = build()
+            except TypeError as ex:
+                raise Unsupported(f"{sim}: constructor signature ({ex})")
+            if kind == "volume":
+                nodes = mesh.nodes
+                if dim == 2:
+                    tot = [sp.integrate(sp.integrate(g_ * fs, (X_, 0, L)), (Y_, 0, H)) * sp.Rational(1, 4) for g_ in (1, X_, Y_)]
+                else:
+                    tot = [sp.integrate(sp.integrate(sp.integrate(g_ * fs, (X_, 0, L)), (Y_, 0, H)), (Z_, 0, D)) for g_ in (1, X_, Y_)]
+                val = f if dname == "linear" else 2.0
+                try:
+                    simu.add_volumeLoad(nodes, [val], [unk])
+                except Exception as ex:
+                    raise Refuted(f"{sim} on {et}: add_volumeLoad(nodes, [density], ['{unk}']) raises {type(ex).__name__}: {ex}", cex=dict(simulation=sim, elemType=et), signature=f"simtypes:{sim}:volume:raises",
+                                  replay=dict(confirmed=True, error=str(ex)[:200]))
+            else:
+                nodes = np.where(np.isclose(co[:, 0], L))[0]
+                if dim == 2:
+                    tot = [sp.integrate((g_ * fs).subs(X_, L), (Y_, 0, H)) * sp.Rational(1, 4) for g_ in (1, X_, Y_)]
+                else:
+                    tot = [sp.integrate(sp.integrate((g_ * fs).subs(X_, L), (Y_, 0, H)), (Z_, 0, D)) for g_ in (1, X_, Y_)]
+                val = f if dname == "linear" else 2.0
+                simu.add_surfLoad(nodes, [val], [unk])
+            pt = simu.problemType if sim != "PhaseField" else simu.ProblemTypes.elastic
+            F = simu.Bc_vector_Neumann(pt) if sim == "PhaseField" else simu.Bc_vector_Neumann()
+            F = np.asarray(F.todense()).ravel() if hasattr(F, "todense") else np.asarray(F).ravel()
+            dn = F.size // mesh.Nn
+            Fx = F.reshape(mesh.Nn, dn)[:, 0]
+            got = [float(Fx.sum()), float(Fx @ co[:, 0]), float(Fx @ co[:, 1])]
+            want = [float(t_) for t_ in tot]
+            n += 3
+            e = max(abs(g_ - w_) for g_, w_ in zip(got, want)) / max(abs(w_) for w_ in want)
+            if e > 1e-9:
+                raise Refuted(f"{sim} on {et} (thickness {th}): {kind} load with a {dname} density: resultant and first moments {np.round(got, 6).tolist()}, exact {np.round(want, 6).tolist()}",
+                              cex=dict(simulation=sim, elemType=et, load=kind, density=dname, thickness=th), signature=f"simtypes:{sim}:{kind}", replay=dict(confirmed=True, got=got, want=want))
+    return Verdict(DISCHARGED, backend="native run vs closed-form integrals", sub=n)
+
+
+def ob_load_curved(et):
+    """line load on the curved (second-order) boundary of a disk: the nodal forces of a constant density sum to density x thickness x length of the boundary AS MESHED
+    (each quadratic edge integrated from its own parametrisation, independently of the library)."""
+    from EasyFEA import ElemType, Models, Simulations
+    from EasyFEA.Geoms import Circle, Point
+    from numpy.polynomial.legendre import leggauss
+    mesh = Circle(Point(), 2.0, 0.5).Mesh_2D([], ElemType[et])
+    th = 0.7
+    simu = Simulations.Elastic(mesh, Models.Elastic.Isotropic(2, planeStress=True, thickness=th))
+    co = np.asarray(mesh.coord)
+    r = np.linalg.norm(co[:, :2], axis=1)
+    nodes = np.where(np.isclose(r, 1.0, atol=1e-6))[0]
+    if nodes.size < 6:
+        raise Unsupported("boundary nodes not found")
+    # length of the meshed boundary: every boundary segment element from its own shape functions
+    length = 0.0
+    for g in mesh.Get_list_groupElem(1):
+        # |dx/dxi| of a curved edge is not a polynomial: the reference uses the Gauss-Legendre rule with the library's number of points (numpy's nodes and weights),
+        # so the comparison is exact up to rounding and does not depend on the quadrature error, which the property leaves to the rule
+        from EasyFEA import MatrixType
+        xg, wg = leggauss(int(np.asarray(g.Get_weight_pg(MatrixType.mass)).size))
+        loc = np.asarray(g.Get_Local_Coords(), dtype=float).ravel()
+        dN = g._dN()
+        for row in np.asarray(g.connect):
+            if not np.isin(row, nodes).all():
+                continue
+            P = co[row]
+            for x_, w_ in zip(xg, wg):
+                xi = 0.5 * (x_ + 1) * (loc.max() - loc.min()) + loc.min()
+                d = sum(float(dN[i, 0](xi)) * P[i] for i in range(len(row)))
+                length += w_ * 0.5 * (loc.max() - loc.min()) * np.linalg.norm(d)
+    worst = 0.0
+    for kind, fac in (("line", 1.0), ("surf", th)):   # in 2-D add_lineLoad is a force per length, add_surfLoad a force per area of the edge (x thickness)
+        simu.Bc_Init()
+        getattr(simu, f"add_{kind}Load")(nodes, [3.0], ["x"])
+        F = simu.Bc_vector_Neumann()
+        F = np.asarray(F.todense()).ravel() if hasattr(F, "todense") else np.asarray(F).ravel()
+        got = float(F.reshape(-1, 2)[:, 0].sum())
+        want = 3.0 * fac * length
+        e = abs(got - want) / want
+        worst = max(worst, e)
+        if e > 1e-9:
+            raise Refuted(f"{et} disk: a constant add_{kind}Load on the curved boundary sums to {got:.9f}; density x {'thickness x ' if kind == 'surf' else ''}length of the meshed boundary = {want:.9f} "
+                          f"(length {length:.9f}; the sum corresponds to a length of {got / (3.0 * fac):.9f}): relative error {e:.3e}", cex=dict(elemType=et, load=kind), signature=f"load:curved:{et}",
+                          replay=dict(confirmed=True, got=got, want=want))
+    return Verdict(DISCHARGED, backend="native run vs independent arc-length quadrature", detail=f"err {worst:.1e}")
+
+
+def ob_load_curved3d(et):
+    """surface load on the curved lateral face of a cylinder meshed with second-order elements: the nodal forces of a constant density sum to density x area of the face AS MESHED
+    (tangent vectors from the shape-function derivatives at the rule's points, cross product computed here)."""
+    from EasyFEA import ElemType, Models, Simulations, MatrixType
+    from EasyFEA.Geoms import Circle, Point
+    mesh = Circle(Point(), 2.0, 0.7).Mesh_Extrude([], [0, 0, 1.0], [2], ElemType[et])
+    simu = Simulations.Elastic(mesh, Models.Elastic.Isotropic(3))
+    co = np.asarray(mesh.coord)
+    nodes = np.where(np.isclose(np.linalg.norm(co[:, :2], axis=1), 1.0, atol=1e-6))[0]
+    area = 0.0
+    for g in mesh.Get_list_groupElem(2):
+        gauss = g.Get_gauss(MatrixType.mass)
+        pts, w = np.asarray(gauss.coord, dtype=float), np.asarray(gauss.weights, dtype=float).ravel()
+        dN = g._dN()
+        for row in np.asarray(g.connect):
+            if not np.isin(row, nodes).all():
+                continue
+            P = co[row]
+            for pt, w_ in zip(pts, w):
+                t1 = sum(float(dN[i, 0](*pt[:2])) * P[i] for i in range(len(row)))
+                t2 = sum(float(dN[i, 1](*pt[:2])) * P[i] for i in range(len(row)))
+                area += w_ * np.linalg.norm(np.cross(t1, t2))
+    if area < 1.0:
+        raise Unsupported("lateral face not found")
+    simu.add_surfLoad(nodes, [3.0], ["z"])
+    F = np.asarray(simu.Bc_vector_Neumann()).ravel()
+    got = float(F.reshape(-1, 3)[:, 2].sum())
+    want = 3.0 * area
+    e = abs(got - want) / want
+    if e > 1e-9:
+        raise Refuted(f"{et} cylinder: a constant add_surfLoad on the curved lateral face sums to {got:.9f}; density x area of the meshed face = {want:.9f} (area {area:.9f}; the sum corresponds to an area of "
+                      f"{got / 3.0:.9f}; exact cylinder {2 * np.pi:.9f}): relative error {e:.3e}", cex=dict(elemType=et), signature=f"load:curved3d:{et}", replay=dict(confirmed=True, got=got, want=want))
+    return Verdict(DISCHARGED, backend="native run vs independent surface-element quadrature", detail=f"err {e:.1e}")
+
+
 def ob_load_none(et):
     """a node selection that bounds no element of the loaded dimension (a single node, two opposite corners, interior nodes): the load contributes nothing --
     no exception, zero Neumann vector -- for line, surface, volume and pressure loads; a later valid load is unaffected."""
@@ -455,6 +611,18 @@ def build(tier, seed):
     for et in ("TRI3", "QUAD8", "TETRA4", "HEXA8"):
         obs.append(Ob(f"C09.load.none.{et}", ob_load_none, (et,), "X", (f"{SP}::_Simu._Bc_Add_Neumann", f"{SP}::_Simu.__Bc_Integration_Dim"), bound="one gmsh box mesh, two selections x four load kinds",
                       clause="loads on nodes that do not bound any element of the loaded dimension contribute nothing (no exception, zero vector)", timeout=300))
+    for sim in ("Thermal", "WeakForms", "WeakForms.vector", "HyperElastic", "PhaseField", "InElastic"):
+        for et in ("TRI3", "QUAD8", "TETRA4"):
+            if sim in ("InElastic", "PhaseField") and et == "QUAD8" and tier == "quick":
+                continue
+            obs.append(Ob(f"C09.load.sim.{sim}.{et}", ob_load_simtypes, (sim, et), "X", (f"{SP}::_Simu.add_volumeLoad", f"{SP}::_Simu.add_surfLoad"), bound="one gmsh box mesh, thickness 0.25 in 2-D, constant and linear densities",
+                          clause="volume and surface loads of every simulation type: resultant and first moments == closed-form integrals (x thickness in 2-D)", timeout=600))
+    for et in ("TRI3", "TRI6"):
+        obs.append(Ob(f"C09.load.curved.{et}", ob_load_curved, (et,), "X", (f"{SP}::_Simu.add_lineLoad", f"{GP}::_GroupElem.Get_F_e_pg"), bound="one disk mesh", timeout=300,
+                      clause="line load on a curved boundary: nodal forces sum to density x thickness x length of the boundary as meshed"))
+    for et in ("TETRA4", "TETRA10", "HEXA20", "PRISM15"):
+        obs.append(Ob(f"C09.load.curved3d.{et}", ob_load_curved3d, (et,), "X", (f"{SP}::_Simu.add_surfLoad", f"{GP}::_GroupElem.Get_jacobian_e_pg"), bound="one cylinder mesh", timeout=300,
+                      clause="surface load on a curved face: nodal forces sum to density x area of the face as meshed"))
     obs.append(Ob("canary.pointload", ob_pointload, (True,), "P", expect=REFUTED))
     functions = {q: extract.get(SP, f"_Simu.{q}").describe() for q in ("__Bc_Integration_Dim", "__Bc_pointLoad", "__Bc_pressureload", "add_surfLoad", "add_lineLoad", "add_volumeLoad")}
     functions["Get_Elements_Nodes"] = extract.get(GP, "_GroupElem.Get_Elements_Nodes").describe()
